@@ -17,12 +17,16 @@ def parse(abbr: str, config: Config):
     Parses given Emmet abbreviation into a final abbreviation tree with all
     required transformations applied
     """
-    snippets = config.cache.get('stylesheet_snippets') if config.cache is not None else None
+    snippets = None
+    # Cached snippets are valid only for the snippet table they were built from
+    if config.cache is not None and config.cache.get('stylesheet_snippets_source') == config.snippets:
+        snippets = config.cache.get('stylesheet_snippets')
 
     if snippets is None:
         snippets = convert_snippets(config.snippets)
         if config.cache is not None:
             config.cache['stylesheet_snippets'] = snippets
+            config.cache['stylesheet_snippets_source'] = config.snippets
 
     if isinstance(abbr, str):
         abbr = abbreviation(abbr, { 'value': is_value_scope(config) })
